@@ -376,6 +376,26 @@ def run_shard(cfg):
                 if idx % of == k:
                     rec.rank = 10**6 + idx
                     check_xpath(rec, tcs, steps, text)
+    # history dimension: a REJECTED legacy xpath first (each leaves the parser / transformer at another point), then a
+    # well-formed one is compiled and judged as usual
+    ILL = ["//NoSuchClass", "NoSuchClass", "/GI//", "GI//@items[x]GL", "//", "/GI/@items[", "/GI//NoSuchClass/GL", "//@items[1]NoSuchClass", "/GI/"]
+    fam_ar = list(RX.paths(1, [None, "items", "child"], [None, 0, 1], [None, "GL", "GI"])) + list(RX.paths(2, [None, "items"], [None, 1], [None, "GL", "GI"]))
+    for ill in ILL:
+        for steps in fam_ar:
+            idx += 1
+            if idx % of != k:
+                continue
+            rec.rank = 4 * 10**6 + idx
+            try:
+                ASTXpath(ill)
+                rec.violation("C20|xpath|ill-formed-accepted", {"text": ill}, "an ill-formed legacy xpath was accepted")
+                continue
+            except ASTXpathDefinitionError:
+                pass
+            except Exception as e:  # noqa: BLE001
+                rec.violation(f"C20|xpath|escapes|{type(e).__name__}", {"text": ill}, f"legacy ASTXpath({ill!r}) raised {type(e).__name__}: {str(e)[:120]}")
+                continue
+            check_xpath(rec, tcs[:3], steps, RX.render(steps), family="after-rejected:" + ill)
     # a tuple of 300 elements: three-digit indices on both sides of 256 (the range of CPython's shared small integers)
     huge = [TreeCase(I(opt=L(), items=[L(), S()] * 150, lst=[S(), L()]))]
     for steps in list(RX.paths(1, [None, "items", "lst"], [None, 0, 10, 100, 255, 256, 257, 258, 299], [None, "GL", "GS"])) + \
@@ -422,6 +442,11 @@ def replay(case, cfg):
         from .c07 import parse_rendered
 
         N._nodes.clear()
+        if str(case.get("family", "")).startswith("after-rejected:"):
+            try:
+                ASTXpath(case["family"].split(":", 1)[1])
+            except Exception:  # noqa: BLE001
+                pass
         tcs = [TreeCase(d) for d in shaped()] if case.get("family", "shaped") == "shaped" else [TreeCase(case["tree"])]
         # (family "huge" and "small" carry their tree in the case)
         check_xpath(rec, tcs, parse_rendered(case["xpath"]), case["xpath"], family=case.get("family", "shaped"))
